@@ -272,7 +272,8 @@ func (h *c14Hist) materialise(env *Env) (*simrt.History, []*c14Key) {
 		case "move":
 			switch s.What {
 			case "mount":
-				if s.To == mount || strings.HasPrefix(s.To, exe+"/") || strings.HasPrefix(exe, s.To+"/") || s.To == exe {
+				s.To = strings.Replace(s.To, "@EXE", exe, 1)
+				if s.To == mount || strings.HasPrefix(s.To, exe+"/") && !strings.HasPrefix(s.To, exe+"/std") || strings.HasPrefix(s.To, exe+"/std/") || strings.HasPrefix(exe, s.To+"/") || s.To == exe || strings.HasPrefix(exe, mount+"/") {
 					continue
 				}
 				out.Steps = append(out.Steps, simrt.Step{Kind: "move", From: mount, To: s.To})
@@ -284,8 +285,8 @@ func (h *c14Hist) materialise(env *Env) (*simrt.History, []*c14Key) {
 				}
 				mount = s.To
 			case "exe":
-				if s.To == exe || strings.HasPrefix(s.To, mount+"/") || strings.HasPrefix(mount, s.To+"/") || s.To == mount {
-					continue
+				if s.To == exe || strings.HasPrefix(s.To, mount+"/") || strings.HasPrefix(mount, s.To+"/") || s.To == mount || strings.HasPrefix(mount, exe+"/") {
+					continue // (a tree that lies next to the std directory stays where it is)
 				}
 				out.Steps = append(out.Steps, simrt.Step{Kind: "move", From: exe, To: s.To}, simrt.Step{Kind: "exe", Dir: path.Join(s.To, "tsh")})
 				keys = append(keys, nil, nil)
@@ -409,7 +410,9 @@ func c14GenOdd(r *Run, rng *gen.Rng, corpus []string, oddPool []string) *c14Hist
 	h.Mount0 = rng.Pick([]string{"/sim/m", "/w/my proj", "/srv/a/b", "/w/proj-1.2/src", "/home/u/.config/t"})
 	h.Exe0 = rng.Pick([]string{"/sim/x", "/opt/tsh/bin"})
 	mounts := []string{"/sim/m", "/w/my proj", "/srv/a/b", "/mnt/other place/p", "/m2", "/w/100% (x)/p", "/w/a+b [1]", "/w/it's/$HOME", "/w/UPPER/lower", "/" + strings.Repeat("deep/", 12) + "p",
-		"/home/u/.dotfiles/scripts", "/w/proj-1.2/src", "/tmp/tmp.AbC123/p", "/w/a.b/c.d/e", "/w/projet-été/src", "/home/ユーザー/p", "/w/backup-2026-09-24T10:30:00/p", "/w/greeter:v2", "/w/a;b,c=d/p"}
+		"/home/u/.dotfiles/scripts", "/w/proj-1.2/src", "/tmp/tmp.AbC123/p", "/w/a.b/c.d/e", "/w/projet-été/src", "/home/ユーザー/p", "/w/backup-2026-09-24T10:30:00/p", "/w/greeter:v2", "/w/a;b,c=d/p",
+		// next to the std directory, in directories whose names merely begin like it
+		"@EXE/std-examples/p", "@EXE/stdlib", "@EXE/std2/x"}
 	exes := []string{"/sim/x", "/opt/tsh/bin", "/usr/local/libexec/t", "/a/first", "/zz/last", "/opt/tsh-1.2/bin"}
 	// phase 0: canonical execution of every (program, target)
 	obj := 100
